@@ -12,7 +12,7 @@ use syn::{
 use crate::{
     bound::{Bound, Bounds, WhereClauseBuilder},
     common::BinaryOp,
-    syn_utils::{expand_self, ref_target},
+    syn_utils::{expand_self, keep_grouping, ref_target},
 };
 
 use self::compare_op::{
@@ -1500,7 +1500,7 @@ impl HelperAttributeForDefault {
             let value = if args.value == parse_quote!(_) {
                 None
             } else {
-                Some(args.value)
+                Some(keep_grouping(args.value))
             };
             Ok(Some(Self {
                 value,
